@@ -1,6 +1,6 @@
 """C07 — String and binary fields, including computed lengths, decode as documented.
 
-E-prod end to end.  Variant layout: [PAD offset][LEN u8][LENC u8 (calibrated 2x)][LENH u8 (calibrated 0.5x)][SEL u2 + 6 pad][FIELD][SENT u8].
+E-prod end to end.  Variant layout: [PAD offset][LEN u8][LENC u8 (calibrated 2x - 2: raw 1 is a calibrated length of 0)][LENH u8 (calibrated 0.5x)][SEL u2 + 6 pad][FIELD][SENT u8].
 Strings: charsets x delimiting {whole buffer, termination character (two choices), leading size 3/8/16}
 x length {fixed, discrete lookup, dynamic reference raw/calibrated with linear adjustment} x every
 content over a 5-symbol alphabet for buffers of <= 4 code units.  Binary: every length 0..40 bits.
@@ -177,7 +177,7 @@ def len_values(adj, use_cal, ref):
     else:
         vals = [0, 1, 2, 3, 4, 5]
     if ref == "LENC" and use_cal:
-        vals = sorted(set(v // 2 for v in vals) | {v for v in vals if v <= 4})
+        vals = sorted(set(v // 2 + 1 for v in vals) | {v + 1 for v in vals if v <= 4})
     if ref == "LENH":
         vals = list(range(0, 11)) if adj and adj[0] <= 8 else list(range(0, 6)) if adj else [0, 1, 2, 3, 16, 17, 64]
     return vals
@@ -190,7 +190,7 @@ def length_from(kind, len_raw, sel):
     if kind[0] == "lookup":
         return kind[1][sel]
     _, ref, use_cal, adj, extra = kind
-    v = (2 * len_raw if (ref == "LENC" and use_cal) else len_raw)
+    v = (2 * len_raw - 2 if (ref == "LENC" and use_cal) else len_raw)
     if ref == "LENH":
         from fractions import Fraction
         v = Fraction(len_raw, 2)
@@ -206,7 +206,7 @@ def mk_doc(variants_chunk, offset, kind_of_type):
     specs = []
     for j, (label, enc, kind) in enumerate(variants_chunk):
         pt = PType(f"T{j}", kind_of_type, enc)
-        pts = [pt, PType("LEN_T", "Integer", IntEnc(8)), PType("LENC_T", "Integer", IntEnc(8, default_cal=Poly(((2.0, 1),)))),
+        pts = [pt, PType("LEN_T", "Integer", IntEnc(8)), PType("LENC_T", "Integer", IntEnc(8, default_cal=Poly(((-2.0, 0), (2.0, 1))))),
                PType("LENH_T", "Integer", IntEnc(8, default_cal=Poly(((0.5, 1),)))), PType("SEL_T", "Integer", IntEnc(2)), PType("P6_T", "Integer", IntEnc(6)), PType("SENT_T", "Integer", IntEnc(8))]
         prs = [Param("LEN", "LEN_T"), Param("LENC", "LENC_T"), Param("LENH", "LENH_T"), Param("SEL", "SEL_T"), Param("P6", "P6_T"), Param(f"F_{j}", f"T{j}"),
                Param("SENT", "SENT_T")]
@@ -434,7 +434,7 @@ def run(ctx):
         "programs": tally.programs,
         "exhaustive": True,
         "bound": ("strings: 12 charset/byte-order configurations x {whole buffer, NUL terminator, 'X' terminator, leading size 3/8/16} x "
-                  "{fixed lengths incl. non-byte and long buffers (up to 42 bytes), discrete lookup (3 entries incl. value 0, and no match; and 3 entries with OVERLAPPING criteria decoded in several orders; a list whose second entry cannot be evaluated when the first matches), dynamic reference LEN/LENC raw/calibrated and LENH (calibrated 0.5x: fractional values) x "
+                  "{fixed lengths incl. non-byte and long buffers (up to 42 bytes), discrete lookup (3 entries incl. value 0, and no match; and 3 entries with OVERLAPPING criteria decoded in several orders; a list whose second entry cannot be evaluated when the first matches), dynamic reference LEN/LENC raw/calibrated (LENC calibrated 2x - 2, so that a raw 1 is a calibrated 0) and LENH (calibrated 0.5x: fractional values) x "
                   "adjustments (8,0),(8,8),(1,0),(1,-8),none} x "
                   f"bit offsets {offsets} x every content over a 5-symbol alphabet (and, on every other offset, a 6-symbol alphabet of Unicode corner cases: BOM, an astral character, a lone surrogate / overlong / out-of-range sequence) for <= {3 if ctx.quick else 4} code units (every size-tag value family); "
                   "binary: every fixed length 1..40 bits, lookup, dynamic lengths 0..40 bits, offsets 0..7, pattern family; "
